@@ -444,6 +444,39 @@ func runExecution(r *mon.Run, cfg config) {
 			send(1 + rng.Intn(4)) // arrives after (or around) runtime-done: belongs to a later flush
 		}
 		post(second, hasDone(second))
+		// Bounded progress: the telemetry post carrying runtime-done has been answered, so the flush has been
+		// triggered (the hook runs inside that request). Everything acknowledged before it must now be on its
+		// way: each such id has to show up in an upstream request. 45 s is a watchdog far above the real
+		// latency (milliseconds); a runtime-done that triggers no flush at all leaves the ids unsent for ever.
+		doneStamp := phases[len(phases)-1].done
+		sentMu.Lock()
+		var pending []string
+		for _, sd := range all {
+			if sd.ack < doneStamp {
+				pending = append(pending, sd.id)
+			}
+		}
+		sentMu.Unlock()
+		reached := mon.WaitUntil(45*time.Second, func() bool {
+			w.mu.Lock()
+			defer w.mu.Unlock()
+			seen := map[string]bool{}
+			for _, b := range w.order {
+				for _, id := range b.ids {
+					seen[id] = true
+				}
+			}
+			for _, id := range pending {
+				if !seen[id] {
+					return false
+				}
+			}
+			return true
+		})
+		if !reached {
+			viol("runtime-done-did-not-flush", fmt.Sprintf("invocation %d: 45 s after the telemetry batch %v was delivered (runtime-done at position %d of %d), datapoints acknowledged before it have still not been sent upstream", k, recs, pos, len(recs)))
+			return
+		}
 		if !waitGets(k + 1) {
 			r.Inconclusive("next-get-never-arrived")
 			return
